@@ -2,7 +2,7 @@
 from mc import alphabets as al
 from mc import roundtrip as rt
 
-EXPRESSIBLE = {al.ABSENT, "str", "int", "float", "bool", "Optional[str]", "Optional[int]", "List[str]", "List[int]",
+EXPRESSIBLE = {"Literal[0, 1]", "Literal['', 'x']", "Literal['1', '2']", al.ABSENT, "str", "int", "float", "bool", "Optional[str]", "Optional[int]", "List[str]", "List[int]",
                "Literal['x', 'y']", "Literal[1, 2]", "Optional[Literal['x', 'y']]", "Optional[float]"}
 
 
@@ -30,8 +30,11 @@ class C04(rt.RoundTrip):
 
     def option_list(self):
         if self.tier == "thorough":
-            return [{"edd": e, "ww": w} for e in (False, True) for w in (True, False)]
-        return [{"edd": False, "ww": True}, {"edd": True, "ww": True}, {"edd": False, "ww": False}]
+            return ([{"edd": e, "ww": w} for e in (False, True) for w in (True, False)]
+                    + [{"edd": e, "ww": w, "ddoc": True} for e in (False, True) for w in (True, False)])
+        # ddoc: the prose handed to the emitter already carries the 'Defaults to ...' sentence
+        return [{"edd": False, "ww": True}, {"edd": True, "ww": True}, {"edd": False, "ww": False},
+                {"edd": False, "ww": True, "ddoc": True}, {"edd": True, "ww": True, "ddoc": True}]
 
 
 CHECK = C04
